@@ -312,6 +312,23 @@ func genC05(t *rapid.T) c05Case {
 				c.Ref += "/" + []string{"not", "items", "additionalProperties", "schema", "title", "name", "description", "get", "allOf", "properties", "maximum"}[gen.Uniform(t, "member", 11)]
 				swapped = true // if the member exists it is not known to be of the requested kind
 			}
+		case 5:
+			// one token of the pointer replaced by a neighbour that most probably does not exist: another status
+			// code or index, `default` turned into a code, a name with one more letter (the model decides)
+			if i := strings.Index(c.Ref, "#/"); i >= 0 {
+				toks := strings.Split(c.Ref[i+2:], "/")
+				k := gen.Uniform(t, "token", len(toks))
+				switch tok := toks[k]; {
+				case tok == "default":
+					toks[k] = []string{"418", "599", "200", "0"}[gen.Uniform(t, "code", 4)]
+				case tok != "" && strings.Trim(tok, "0123456789") == "":
+					toks[k] = []string{"404", "599", "7", "201", "default"}[gen.Uniform(t, "othernum", 5)]
+				default:
+					toks[k] = tok + "x"
+				}
+				c.Ref = c.Ref[:i+2] + strings.Join(toks, "/")
+				swapped = true
+			}
 		case 4:
 			// another kind than the target's: still an object, decodes leniently
 			c.Kind = []string{"schema", "parameter", "response", "pathitem", "items"}[gen.Uniform(t, "otherkind", 5)]
